@@ -362,6 +362,11 @@ pub struct LinkCongestionState {
     /// Ticks the `loss_uncongestive` verdict has been held, against
     /// `LOSS_UNCONGESTIVE_RETEST_TICKS`.
     uncongestive_ticks: u32,
+    /// Set once `target_bps` has been seeded from observed throughput on
+    /// the first non-bootstrap tick. Tracked explicitly: a backoff or
+    /// drain can clamp the target to exactly `MIN_TARGET_BPS`, which must
+    /// not be mistaken for "not yet seeded".
+    seeded: bool,
 }
 
 impl Default for LinkCongestionState {
@@ -390,6 +395,7 @@ impl Default for LinkCongestionState {
             backoff_entry_loss_pm: 0,
             loss_uncongestive: false,
             uncongestive_ticks: 0,
+            seeded: false,
         }
     }
 }
@@ -596,6 +602,7 @@ impl LinkCongestionState {
             self.state = CcState::Bootstrap;
             self.climb_mode = ClimbMode::Normal;
             self.target_bps = MIN_TARGET_BPS;
+            self.seeded = false;
             return;
         }
 
@@ -618,9 +625,10 @@ impl LinkCongestionState {
 
         // First non-bootstrap tick: seed the target from observed throughput
         // (or a conservative floor if no traffic yet).
-        if self.target_bps == MIN_TARGET_BPS {
+        if !self.seeded {
             let seed = sane_observed.max(INITIAL_TARGET_BPS);
             self.target_bps = seed.clamp(MIN_TARGET_BPS, MAX_TARGET_BPS);
+            self.seeded = true;
         }
 
         // Is this loss ours? Two independent things have to hold.
